@@ -155,10 +155,20 @@ def poses(k):
         out.append(("axis-x-tetrahedral", TET @ rot_to(Z, [1, 0, 0]).T))
         out.append(("t-shaped", np.array([[1.0, 0, 0], [-0.17364818, 0.98480775, 0], [-0.17364818, -0.49240388, 0.85286853]]) @ GENERIC.T))
         return out
+    if k in (4, 5):
+        def umbrella(polar_deg, twist=0.0):
+            t = math.radians(polar_deg)
+            return np.array([[math.sin(t) * math.cos(twist + 2 * math.pi * j / k), math.sin(t) * math.sin(twist + 2 * math.pi * j / k), math.cos(t)] for j in range(k)])
+
+        out.append(("umbrella-axis-z", umbrella(118.0)))  # neighbours below, free side along +z
+        out.append(("umbrella-axis+z", umbrella(62.0, 0.3)))  # neighbours above
+        out.append(("umbrella-general", umbrella(115.0, 0.7) @ GENERIC.T))
+        out.append(("umbrella-axis-x", umbrella(120.0, 0.2) @ rot_to(Z, [1, 0, 0]).T))
+        return out
     raise HarnessError("k")
 
 
-POSES = {k: dict(poses(k)) for k in (0, 1, 2, 3)}
+POSES = {k: dict(poses(k)) for k in (0, 1, 2, 3, 4, 5)}
 NBR_LEN = {"C": 1.50, "H": 1.05, "F": 1.35, "M": 2.05, "Q": 2.05}  # M: Fe typed CoordinationCenter, Q: Pd typed Regular
 CENTRES = ["C", "N", "O", "B", "Si", "P", "S", "Al"]
 CHARGES = [0, 1, -1]
@@ -173,8 +183,10 @@ BT = {
     "fractional": (BondType.FractionalOrder, 0.5),
     "fractional-1.25": (BondType.FractionalOrder, 1.25),
     "ligand": (BondType.Ligand, 1.0),
+    "dummy": (BondType.Dummy, 1.0),
+    "not-connected": (BondType.NotConnected, 1.0),
 }
-BT_ORDER = {"single": 1.0, "double": 2.0, "triple": 3.0, "aromatic": 1.5, "fractional": 0.5, "fractional-1.25": 1.25, "ligand": 0.0}
+BT_ORDER = {"single": 1.0, "double": 2.0, "triple": 3.0, "aromatic": 1.5, "fractional": 0.5, "fractional-1.25": 1.25, "ligand": 0.0, "dummy": 0.0, "not-connected": 0.0}
 OFFSETS = [(0.0, 0.0, 0.0), (0.3, -1.2, 0.7), (-2.5, 0.4, 1.9), (10.0, 10.0, -10.0)]
 
 
@@ -221,6 +233,8 @@ def build(case, seed, rep="members"):
         a = Atom(Z_OF[case["centre"]], atype=1, formal_charge=np.int64(case["charge"]), formal_spin=np.int32(case["spin"]))
     else:
         a = Atom(case["centre"], formal_charge=case["charge"], formal_spin=case["spin"])
+    if case.get("atype") is not None:
+        a.atype = int(case["atype"]) if plain else AtomType(int(case["atype"]))
     if case["hint"] is not None:
         a.attrib[HINT] = case["hint"]
     atoms = [a]
@@ -242,10 +256,16 @@ def build(case, seed, rep="members"):
     coords.append(off + np.array([7.0, 7.5, 8.0]))
     atoms.append(Atom(26) if plain else Atom("Fe"))
     coords.append(off + np.array([-7.0, 7.5, -8.0]))
+    if case.get("centre_last"):
+        # the centre is listed (and completed) after its neighbours and the bystanders
+        atoms = atoms[1:] + atoms[:1]
+        coords = coords[1:] + coords[:1]
     for n, x in enumerate(atoms):
         x.label = f"a{n}"
     m = Molecule(atoms, copy_atoms=False)
     m.coords = np.array(coords, dtype=float)
+    if case.get("centre_last"):
+        atoms = atoms[-1:] + atoms[:-1]  # below: atoms[0] is the centre, atoms[1:1+k] its neighbours
     for (el, bt), b in zip(case["nbrs"], atoms[1 : 1 + k]):
         btype, fo = BT[bt]
         if plain:
@@ -461,7 +481,8 @@ def verify(m, snap, whole=False, notes=None, selected=None):
             frac = "fractional" if bonded[i] != math.floor(bonded[i]) else "integer"
             sym = "too-few" if len(got) < exp else "too-many"
             neg = hint is None and fs is not None and fs < 0
-            out.append((f"count[formula;negative-spin]:{sym}" if neg else f"count[{src};bonded-valence-{frac};due-{exp}]:{sym}", f"Z={z} charge={fc} spin={fs} hint={hint} bonded valence={bonded[i]:g} ({len(nbrs[i])} neighbours): {len(got)} hydrogens added, {exp} due"))
+            tcls = f"atom-type-{(atype // 100) * 100}s" if atype >= 100 else None  # 100-102 placeholders, 201.. specific classes
+            out.append((f"count[formula;negative-spin]:{sym}" if neg else (f"count[{src};{tcls}]:{sym}" if tcls else f"count[{src};bonded-valence-{frac};due-{exp}]:{sym}"), f"Z={z} charge={fc} spin={fs} hint={hint} bonded valence={bonded[i]:g} ({len(nbrs[i])} neighbours): {len(got)} hydrogens added, {exp} due"))
         if not got:
             continue
         # placement
@@ -471,7 +492,7 @@ def verify(m, snap, whole=False, notes=None, selected=None):
         # CoordinationCenter neighbours, those
         pn = [j for j in nbrs[i] if snap["desc"][j][3] != CC] or list(nbrs[i])
         k = len(pn)
-        cls = f"{k}-neighbours"
+        cls = f"{k}-neighbours" if k < 4 else "four-or-more-neighbours"
         ref = None
         if k == 0:
             cls = "no-placement-neighbours"
@@ -483,7 +504,7 @@ def verify(m, snap, whole=False, notes=None, selected=None):
             ref = nrm
         if ref is not None and np.linalg.norm(ref) > 1e-9 and abs(unit(ref) @ Z) > 1 - 1e-9:
             cls = "reference-direction-along-z"
-        cls = f"{cls};due-{len(got)}" if k else cls
+        cls = f"{cls};due-{len(got)}" if 0 < k < 4 or (k >= 4 and cls != "four-or-more-neighbours") else cls
         L = RCOV[z] + RCOV[1]
         H = coords[got]
         if not np.all(np.isfinite(H)):
@@ -516,7 +537,7 @@ def verify(m, snap, whole=False, notes=None, selected=None):
                 okdir = any(all(float((h - X) @ c) < -1e-9 for h in Hs) for c in cents)
                 if not okdir:
                     dcls = "3-neighbours;more-than-one-hydrogen" if (k == 3 and len(got) > 1) else cls
-                    if any((snap["desc"][j][3] == CC) != (bt_of.get((i, j)) == 98) for j in nbrs[i]):
+                    if k < 4 and any((snap["desc"][j][3] == CC) != (bt_of.get((i, j)) == 98) for j in nbrs[i]):
                         dcls = "neighbour-atom-type-and-bond-type-disagree"  # ligand bond to a Regular atom / ordinary bond to a CoordinationCenter
                     if len(got) == 4 and k >= 1:
                         dcls = "due-4;with-neighbours"  # four hydrogens on an atom that has (order-0 bonded) neighbours
@@ -821,6 +842,8 @@ def dative_menu(ctx):
 
 def pose_menu(ctx, k):
     names = [n for n, _ in poses(k)]
+    if k >= 4:
+        return rot(names if ctx.thorough else names[:3], ctx.seed)
     if not ctx.thorough and k >= 1:
         keep = {1: ["general", "+x", "+z", "-z", "xz-diagonal", "-y"], 2: ["general-109", "first-bond+z-109", "first-bond-z-120", "bisector+z-109"], 3: ["general-tetrahedral", "axis-z-tetrahedral", "first-bond-z", "general-flattened"]}[k]
         names = [n for n in names if n in keep]
@@ -829,7 +852,7 @@ def pose_menu(ctx, k):
 
 def rt_selected(ctx, head):
     """heads whose environments also go through the library / pickle round trips"""
-    c, q, sp, h = head
+    c, q, sp, h = head[:4]
     if ctx.thorough:
         return h is None or (q, sp) == (0, 0)
     if h is None:
@@ -861,16 +884,19 @@ def _grammar_part(sub, part):
     limit = part[3] if len(part) > 3 else None  # heads that run on the first `limit` poses only
     n_s = 0
     batch = []
+    extra_sets = part[5] if len(part) > 5 else [{}]
     for head in heads:
-        c, q, sp, h = head
+        c, q, sp, h = head[:4]
         rts = rt_selected(sub, head)
-        for k in (0, 1, 2, 3):
+        for k in sorted(nm):
             pn = pose_menu(sub, k)
             if limit is not None:
                 pn = pn[:limit]
             for els, bts in nm[k]:
-                for pname in pn:
-                    case = {"kind": "environment", "centre": c, "charge": q, "spin": sp, "hint": h, "nbrs": [list(x) for x in zip(els, bts)], "pose": pname}
+                for pname, extra in itertools.product(pn, extra_sets):
+                    case = {"kind": "environment", "centre": c, "charge": q, "spin": sp, "hint": h, "nbrs": [list(x) for x in zip(els, bts)], "pose": pname, **extra}
+                    if len(head) > 4:
+                        case["atype"] = head[4]
                     m = build(case, seed)
                     # quick: the second (idempotence) call on the first pose (two for one neighbour) of every environment
                     o, base = run_one(sub, m, case, second=sub.thorough or pname == pn[0] or (k == 1 and pname == pn[1]))
@@ -886,7 +912,7 @@ def _grammar_part(sub, part):
                             _flush_roundtrips(sub, batch, seed)
                     bonded = sum(BT_ORDER[b] for b in bts)
                     if h is not None or due(Z_OF[c], q, sp, bonded, None) > 0:
-                        sub.nontrivial((c, q, sp, h, els, bts, pname))
+                        sub.nontrivial((c, q, sp, h, els, bts, pname, head[4:], tuple(sorted(extra.items()))))
                     n_s += 1
                     if n_s % 4001 == 1:
                         sub.sample({**case, "hydrogens_due_at_centre": due(Z_OF[c], q, sp, bonded, h), "outcome": o[0]})
@@ -1300,6 +1326,19 @@ def sequences_for(ctx, scope, hints, full=True):
 
     for i in scope:
         add([[i]], "explicit", "single-atom")
+    # argument lists that name an atom twice (overlapping selections): judged for atoms that never had
+    # a hint (an atom completed by a hint smaller than the formula value may be topped up when it is met
+    # again - the property grants idempotence to hint-free atoms only)
+    free = [i for i in scope if hints.get(i) is None]
+    if free:
+        i = free[0]
+        rest = [j for j in scope if j != i]
+        add([[i, i] + rest], "explicit", "explicit-list-with-repeats")
+        add([[i] + rest + [i]], "explicit", "explicit-list-with-repeats")
+        if len(free) == len(scope):
+            add([list(scope) + list(scope)], "explicit", "explicit-list-with-repeats")
+        else:
+            add([free + free], "explicit", "explicit-list-with-repeats")
     if len(scope) < 2:
         return out
     parts = ordered_partitions(scope, 2)
@@ -1419,6 +1458,9 @@ def _cdxml_sequence_part(sub, part):
                 continue
             base = _one_call_baseline(sub, make, True)
             seqs = []
+            free = [i for i in scope if hints.get(i) is None]
+            if free:
+                seqs.append({"blocks": [free + free[: max(1, len(free) // 2)]], "final": "explicit", "shape": "explicit-list-with-repeats"})
             for blocks in cdxml_schemes(scope, hints):
                 seqs.append({"blocks": blocks, "final": "explicit", "shape": "explicit-subsets"})
                 if all(hints.get(i) is None for b in blocks[:-1] for i in b):
@@ -1616,6 +1658,8 @@ def run(ctx):
         "representations and histories: the expected counts are always computed from what the molecule object holds right before the call (bond type numbers, f_order, formal charge/spin, hint), the order of an int-typed bond being that of the enum member with the same value; a failure of a variant (plain numbers, library/pickle round trip, query+edit history) is reported under '<symptom family>@<variant class>' and only for what the same molecule built plainly does not show",
         "explicit-atom calls add_implicit_hydrogens(*atoms) are judged call by call: the named atoms receive their count (hint where present, else formula), every other atom nothing; atoms are named in the ways this tree accepts (probed; rejected ways are listed in the notes, not judged); a default call after explicit calls is judged only where the atoms completed before it never had a hint (the property grants idempotence to hint-free atoms only: an atom completed by a hint smaller than the formula value is topped up by a later default call, which the property does not forbid)",
         "ownership: wrapping the atoms in a second container, copying, joining etc. are pre-histories; the frame condition after the call is unchanged (old atom list + new hydrogens, no object twice, finite coordinates)",
+        "the atom type of an atom never enters its count (selection is by element group; atoms typed Dummy/AttachmentPoint/LonePair with a real element are completed like any other - the unchanged tree's rule)",
+        "an argument list that names an atom twice completes it once; judged for atoms that never had a hint",
         "seeds turn every pose about the z axis (so that z-aligned poses stay z-aligned), change the centre position and bond lengths and rotate the alphabets",
     ]
     tables_vs_molli(ctx)
@@ -1643,6 +1687,41 @@ def run(ctx):
         hs = neg_heads[i::nn]
         if hs:
             parts.append(("grammar", (hs, nm, ctx.seed, 2 if ctx.thorough else 1)))
+    # the centre's atom type: every member of the AtomType enumeration (read at run time: an alphabet,
+    # not an expectation); the count is by element, charge, spin and bonds - the atom type never matters
+    from molli.chem import AtomType as _AT
+
+    atypes = sorted({int(x) for x in _AT})
+    ctx.bound["centre_atom_types"] = atypes
+    theads = [(c, q, sp, None, t) for t in atypes for c in rot(CENTRES, ctx.seed) for (q, sp) in (((0, 0), (1, 0), (-1, 1)) if ctx.thorough else ((0, 0),))]
+    tnm = {0: [((), ())], 1: [(("C",), ("single",)), (("C",), ("double",)), (("H",), ("aromatic",))], 2: [(("C", "C"), ("single", "single")), (("C", "F"), ("aromatic", "single"))], 3: [(("C", "H", "F"), ("single", "single", "single"))]}
+    for i in range(4):
+        hs = theads[i::4]
+        if hs:
+            parts.append(("grammar", (hs, tnm, ctx.seed, 1 if not ctx.thorough else 2, "atom-type")))
+    # four and five neighbours with hydrogens still due: order-0 bonds, or a hint; the centre listed
+    # first and listed last
+    o0 = [("C", "ligand"), ("Q", "ligand"), ("C", "dummy"), ("F", "not-connected")]
+    mnm = {4: [], 5: []}
+    for el, bt in o0:
+        mnm[4].append((("C", "C", "C", el), ("single", "single", "single", bt)))
+        mnm[4].append((("C", "H", el, "C"), ("single", "single", bt, "ligand")))
+        mnm[5].append((("C", "C", "C", el, "C"), ("single", "single", "single", bt, "ligand")))
+    mnm[4].append((("C", "C", "C", "C"), ("single", "single", "single", "single")))
+    mnm[4].append((("C", "H", "F", "M"), ("single", "single", "single", "single")))
+    mnm[5].append((("C", "C", "C", "C", "C"), ("single", "single", "single", "single", "dummy")))
+    mheads = [(c, q, 0, None) for c in rot(CENTRES, ctx.seed) for q in (0, 1, -1)] + [(c, 0, 0, h) for c in rot(CENTRES, ctx.seed) for h in (1, 2)]
+    for k in (4, 5):
+        for els in sorted({e for e, _ in mnm[k]}):
+            for pname in pose_menu(ctx, k):
+                P = np.array([d * NBR_LEN[el] for el, d in zip(els, POSES[k][pname]) if el != "M"])
+                if np.linalg.norm(P.mean(axis=0)) < 0.2:
+                    raise HarnessError(f"degenerate pose {pname} for {els}")
+    ctx.bound["four_and_five_neighbours"] = f"{len(mheads)} heads x {len(mnm[4]) + len(mnm[5])} neighbour specifications (three real + one or two order-0 bonded neighbours; four single bonds with a hint) x poses x centre listed first / last"
+    for i in range(4):
+        hs = mheads[i::4]
+        if hs:
+            parts.append(("grammar", (hs, mnm, ctx.seed, None, "many-neighbours", [{}, {"centre_last": True}])))
     dheads, dnm = dative_menu(ctx)
     validate_poses(ctx, dnm)
     ctx.bound["atom_type_x_bond_type"] = f"{len(dheads)} heads x {sum(len(v) for v in dnm.values())} neighbour specifications with (Regular metal | CoordinationCenter | carbon) x (ligand | single) crossed, every pose"
